@@ -220,6 +220,34 @@ func (m *Model) HasNestedCollections() bool {
 	return found
 }
 
+// RenameDef renames a definition and every reference to it.
+func (m *Model) RenameDef(old, name string) {
+	if old == name {
+		return
+	}
+	if m.Def(name) != nil {
+		m.RenameDef(name, name+"Inner")
+	}
+	for i := range m.Defs {
+		if m.Defs[i].Name == old {
+			m.Defs[i].Name = name
+		}
+	}
+	if m.Entry == old {
+		m.Entry = name
+	}
+	m.Walk(func(_ string, _ string, t *T) {
+		if t.Kind == KRef && t.Ref == old {
+			t.Ref = name
+		}
+		for i, r := range t.Refs {
+			if r == old {
+				t.Refs[i] = name
+			}
+		}
+	})
+}
+
 // HasBytes tells whether the model holds a bytes field.
 func (m *Model) HasBytes() bool {
 	found := false
